@@ -15,7 +15,7 @@ import shutil
 
 import vlib
 
-PROPS = ['Rangers.Props.C18', 'Rangers.Props.C18Gen', 'Rangers.Props.C18Aux', 'Rangers.Props.C18Sites', 'Rangers.Props.C18Size', 'Rangers.Props.C18Exp']
+PROPS = ['Rangers.Props.C18', 'Rangers.Props.C18Gen', 'Rangers.Props.C18Aux', 'Rangers.Props.C18Sites', 'Rangers.Props.C18Size', 'Rangers.Props.C18Exp', 'Rangers.Props.C18Tx']
 DRIVERS = ['C18']
 
 META = dict(
@@ -156,7 +156,7 @@ def replay(ctx, payload):
         for b in payload['broken']:
             if b[0] == 'correspondence' and b[1].get('first'):
                 op = b[1]['first'][0]['op']
-    if not op or op.split(' ')[0] not in ('parse', 'pf', 'fmt', 'tostr', 'nodot', 'erc20', 'rocket', 'evmval', 'ft', 'stake', 'f64', 'u64', 'stakearg', 'basen', 'calldata', 'size', 'xfer', 'cfg'):
+    if not op or op.split(' ')[0] not in ('parse', 'pf', 'fmt', 'tostr', 'nodot', 'erc20', 'rocket', 'evmval', 'ft', 'stake', 'f64', 'u64', 'stakearg', 'basen', 'calldata', 'size', 'xfer', 'cfg', 'decode', 'convert', 'world', 'u64b', 'b2u64', 'bbstr', 'rawbal'):
         return 0
     binp, log = vlib.go_build(ctx, vlib.HARNESS, './cmd/c18', 'c18')
     if not binp:
